@@ -108,6 +108,8 @@ pub struct Conn {
     pub policy: IoPolicy,
     pub faults: Vec<FaultPlan>,
     pub rng: Rng,
+    /// broker decisions draw from their own stream so that I/O scheduling cannot change them
+    pub brng: Rng,
     pub out: ClientStream,
     pub inq: VecDeque<u8>,
     pub in_pkts: Vec<InPkt>,
@@ -199,11 +201,13 @@ impl World {
     pub fn open_conn(&mut self, spec: &ConnectSpec) -> usize {
         let idx = self.conns.len();
         let rng = self.rng.fork();
+        let brng = self.rng.fork();
         self.conns.push(Conn {
             idx,
             policy: spec.policy.clone(),
             faults: spec.faults.clone(),
             rng,
+            brng,
             out: ClientStream::default(),
             inq: VecDeque::new(),
             in_pkts: Vec::new(),
@@ -359,7 +363,7 @@ impl World {
             let b = &self.conns[conn].broker;
             (b.fail_pct, b.longform_pct)
         };
-        let rng = &mut self.conns[conn].rng;
+        let rng = &mut self.conns[conn].brng;
         let reason = if fail_pct > 0 && rng.chance(fail_pct as u32, 100) {
             *rng.pick(fail_codes)
         } else {
@@ -469,7 +473,7 @@ impl World {
             }
             CPacket::Subscribe { pid, filters, .. } => {
                 let fail_pct = self.conns[conn].broker.fail_pct;
-                let rng = &mut self.conns[conn].rng;
+                let rng = &mut self.conns[conn].brng;
                 let codes: Vec<u8> = filters
                     .iter()
                     .map(|(_, o)| {
@@ -485,7 +489,7 @@ impl World {
             }
             CPacket::Unsubscribe { pid, filters, .. } => {
                 let fail_pct = self.conns[conn].broker.fail_pct;
-                let rng = &mut self.conns[conn].rng;
+                let rng = &mut self.conns[conn].brng;
                 let codes: Vec<u8> = filters
                     .iter()
                     .map(|_| {
